@@ -171,6 +171,10 @@ func vxPoisonValue(c SpeedCurve) {
 	}
 }
 
+// vxNoPoison: leave the curve's stored value alone before the evaluation (passes that look for state carried from one
+// evaluation to the next: a curve may legitimately reuse a value it stored itself).
+var vxNoPoison bool
+
 // vxEval runs the real Evaluate with the oracles common to all curve types:
 // no panic, no error, result in 0..255, result == CurrentValue().
 func vxEval(c SpeedCurve) (v int, f *vxFail) {
@@ -183,7 +187,9 @@ func vxEval(c SpeedCurve) (v int, f *vxFail) {
 			f = &vxFail{"panic", fmt.Sprintf("Evaluate panicked: %v\n%s", r, st)}
 		}
 	}()
-	vxPoisonValue(c)
+	if !vxNoPoison {
+		vxPoisonValue(c)
+	}
 	v, err := c.Evaluate()
 	if err != nil {
 		return v, &vxFail{"error", "Evaluate returned error: " + err.Error()}
@@ -377,6 +383,34 @@ func vxC06LinearConfig(rep *mc.Report, base vxCase, sample bool) {
 		}
 	}
 	rep.AddDistinct(nontrivial)
+	// state carried between evaluations: (a) the FIRST evaluation of a fresh curve object at every input, (b) every input
+	// evaluated twice in a row, (c) the sweep in descending order; the stored value is left alone in these passes
+	vxNoPoison = true
+	defer func() { vxNoPoison = false }()
+	ins := vxInputs(bps)
+	check := func(curve SpeedCurve, in float64, how string) bool {
+		c := base
+		c.Input = in
+		rep.Evaluations++
+		rep.Count("linear-evaluations ("+how+")", 1)
+		if _, f := vxLinearCheck(rep, curve, c); f != nil {
+			f.class = f.class + " (" + how + ")"
+			vxViolate(rep, "C06", vxLinearFamily(c.Kind), f, c, vxDescribe(c)+" ["+how+"]")
+			return false
+		}
+		return true
+	}
+	for _, in := range ins {
+		fresh, _, _ := vxLinearCurve(base)
+		if !check(fresh, in, "first evaluation of a new curve object") || !check(fresh, in, "same reading twice in a row") {
+			return
+		}
+	}
+	for i := len(ins) - 1; i >= 0; i-- {
+		if !check(curve, ins[i], "readings in reverse order") {
+			return
+		}
+	}
 }
 
 func vxDescribe(c vxCase) string {
